@@ -852,6 +852,12 @@ func c19Concurrent(c *run.Ctx) {
 	for i := range keys {
 		keys[i] = []uint{0, 0x8000, 0xc001, 0x10002, 0x1ffff}[i] + uint(c.Rng.Intn(3))
 	}
+	if c.Rng.Intn(2) == 0 && nkeys >= 2 {
+		// an outbound record and the reception marker of the same packet identifier:
+		// keys that differ in the top bit only
+		id := uint(0x8000 + c.Rng.Intn(0x8000))
+		keys[0], keys[1] = id, id|0x10000
+	}
 	writers := nkeys // one mutating goroutine per key at a time
 	readers := 1 + c.Rng.Intn(8)
 	listers := 1 + c.Rng.Intn(3)
@@ -1100,7 +1106,7 @@ func init() {
 		},
 		ChunkSize:    2,
 		ChildTimeout: 900,
-		Rule:         "three in four cases are scripts of 2-5 Save/Delete operations on 1-3 keys (client identifier, both publish ranges, marker range, highest key; first writes, overwrites, deletes of present and absent keys; values 12 B-4 MiB in 1-3 buffers) run by a helper process built from the working tree (one locked OS thread) under strace: (1) an uninterrupted run gives the helper's own system call sequence; (2) one run per system call of every operation (and per marker write around it) with SIGKILL injected at the entry of that call (= stop after the previous one), then a FRESH process lists and loads: every key must hold its complete previous or complete new value (sha256), other keys the model value, every listed key must load, no key twice; (3) stops inside the data write at byte counts {1, half, buffer boundary +-1, all but one} through RLIMIT_FSIZE with the retry write killed, and the same limit without the kill as a write error after partial progress; (4) an error injected at each openat/write/fsync/close/renameat/unlinkat: the reported outcome drives the model, the final state must equal it; (5) for every Save that reported success, in all of these runs, the call order is checked: data written to a name List does not report, a successful fsync after the last write, only then rename onto the key. One in four cases runs 1-4 writer goroutines (one per key), 1-8 readers and 1-3 listers on the real store under the race detector and checks the recorded history with porcupine against a per-key register (reads return complete values only), List against the presence intervals. Non-trivial: a kill or error that landed inside an operation; distinct by (system call, operation, size class, cut class).",
+		Rule:         "three in four cases are scripts of 2-5 Save/Delete operations on 1-3 keys (client identifier, both publish ranges, marker range, highest key; first writes, overwrites, deletes of present and absent keys; values 12 B-4 MiB in 1-3 buffers) run by a helper process built from the working tree (one locked OS thread) under strace: (1) an uninterrupted run gives the helper's own system call sequence; (2) one run per system call of every operation (and per marker write around it) with SIGKILL injected at the entry of that call (= stop after the previous one), then a FRESH process lists and loads: every key must hold its complete previous or complete new value (sha256), other keys the model value, every listed key must load, no key twice; (3) stops inside the data write at byte counts {1, half, buffer boundary +-1, all but one} through RLIMIT_FSIZE with the retry write killed, and the same limit without the kill as a write error after partial progress; (4) an error injected at each openat/write/fsync/close/renameat/unlinkat: the reported outcome drives the model, the final state must equal it; (5) for every Save that reported success, in all of these runs, the call order is checked: data written to a name List does not report, a successful fsync after the last write, only then rename onto the key. One in four cases runs 1-4 writer goroutines (one per key; half of the time two of the keys are an outbound record and the reception marker of the same packet identifier), 1-8 readers and 1-3 listers on the real store under the race detector and checks the recorded history with porcupine against a per-key register (reads return complete values only), List against the presence intervals. Non-trivial: a kill or error that landed inside an operation; distinct by (system call, operation, size class, cut class).",
 		Assumptions: []string{
 			"a killed process keeps the page cache: 'flushed before visible' is observed as system call order (successful fsync before rename), not as bytes surviving power loss",
 			"strace injects the signal at system call entry, so the stop lies between two system calls; RLIMIT_FSIZE places it inside the data write",
